@@ -370,6 +370,11 @@ func genGR(focus string) func(r *rand.Rand, w *W) [][]string {
 			}
 		}
 		hid := 0
+		if r.Intn(3) == 0 { // routers sharing the group's middleware slice: Use on several routers, then register
+			for _, n := range names {
+				ops = append(ops, append([]string{"ruse", n}, list(newMws(1)...)...))
+			}
+		}
 		for _, n := range append(append([]string{}, names...), solo...) {
 			for k := 1 + r.Intn(2); k > 0; k-- {
 				hid++
